@@ -1,3 +1,4 @@
 Require Import ExtrOcamlBasic.
-From Eupsv Require Import Base.Base Model.Graph Model.Db Model.Remove.
-Extraction "model.ml" keep_types remove remove_fixed remove_pinned collect uses_index users.
+From Eupsv Require Import Base.Base Model.Graph Model.Db Model.Remove Model.RemoveExt.
+Extraction "model.ml" keep_types remove remove_fixed remove_pinned collect uses_index users
+  remove_x eups_remove cli_remove select prompt destroy_i.
